@@ -40,6 +40,7 @@ FamProp(m) ==
       [] m \in {"untracked", "mc-untracked"} -> {"C04"}
       [] m \in {"lru", "mc-lru"} -> {"C05"}
       [] m \in {"churn", "reclaim"} -> {"C07"}
+      [] m = "mc-intern" -> {"C07", "C08", "C09"}
       [] m = "spec" -> {"C10"}
       [] m \in {"pcycle", "pcyclefix"} -> {"C14"}
       [] m = "diverge" -> {"C15"}
@@ -226,7 +227,8 @@ OnRetMut ==
     /\ (~st.injNow) => Check("C02", st.expect = "" => ev.ok = 1, <<"write panicked", ev.kind, ev.msg>>)
     /\ (~st.injNow) => Check("C02", st.applied, <<"write finished without the writer having proceeded", st.cur>>)
     /\ st.injNow => Check("C22", ev.ok = 0 /\ ev.kind = "inject", <<"injected panic did not reach the caller of the write", ev.ok, ev.kind>>)
-    /\ ((Strict /\ ~st.cyc /\ evicts /\ st.applied) => LruChecks)
+    \* (accumulated() requests touch the LRU order in ways the order model does not track: accumlru is judged for C11 only)
+    /\ ((Strict /\ ~st.cyc /\ evicts /\ st.applied /\ st.mode # "accumlru") => LruChecks)
     /\ st' = [st EXCEPT !.cur = [op |-> "none"], !.order = IF st.applied THEN order2 ELSE st.order,
                         !.wpend = [op |-> "none"], !.applied = FALSE,
                         !.panics = IF ev.ok = 0 THEN st.panics + 1 ELSE st.panics]
